@@ -28,6 +28,9 @@ open Ach Ach.Gen
 theorem accept_monotone_batch (o o' : Opts) (h : o.le o') (b : VBatch) :
     batchValidate o b = true → batchValidate o' b = true := batchValidate_mono h b
 
+theorem accept_monotone_iat_batch (o o' : Opts) (h : o.le o') (b : VBatch) :
+    iatBatchValidate o b = true → iatBatchValidate o' b = true := iatBatchValidate_mono h b
+
 theorem accept_monotone_file (o o' : Opts) (h : o.le o') (f : VFile) :
     fileValidate o f = true → fileValidate o' f = true := fileValidate_mono h f
 
